@@ -1,0 +1,122 @@
+//go:build verif
+
+package astdiff
+
+// Verification hooks. This file is compiled only with -tags verif and only
+// adds code: it renders a snapshot as text for an external harness.
+
+import (
+	"fmt"
+	"go/token"
+	"reflect"
+	"strings"
+
+	"github.com/uber-go/gopatch/internal/goast"
+)
+
+// VerifInterner numbers the types and the plain values met while
+// rendering snapshots, so that renderings made with one interner can be
+// compared with each other.
+type VerifInterner struct {
+	types map[reflect.Type]int
+	atoms map[string]int
+}
+
+// NewVerifInterner builds an interner. The types that changeFinder.Walk
+// and snapshot single out have fixed numbers: 1 *ast.Object,
+// 2 *ast.CommentGroup, 3 token.Pos.
+func NewVerifInterner() *VerifInterner {
+	return &VerifInterner{
+		types: map[reflect.Type]int{
+			goast.ObjectPtrType:       1,
+			goast.CommentGroupPtrType: 2,
+			goast.PosType:             3,
+		},
+		atoms: make(map[string]int),
+	}
+}
+
+func (in *VerifInterner) typ(t reflect.Type) int {
+	id, ok := in.types[t]
+	if !ok {
+		id = len(in.types) + 10
+		in.types[t] = id
+	}
+	return id
+}
+
+func (in *VerifInterner) atom(v any) int {
+	k := fmt.Sprintf("%T:%#v", v, v)
+	id, ok := in.atoms[k]
+	if !ok {
+		id = len(in.atoms) + 1
+		in.atoms[k] = id
+	}
+	return id
+}
+
+// VerifSexp renders the snapshot as an s-expression:
+//
+//	(n T)                                 nil pointer or interface
+//	(p POS)                               token.Pos
+//	(a T ATOM)                            any other plain value
+//	(r T ISNODE POS END (GROUP...) ELEM)  pointer or interface
+//	(s T ELEMNODE CHILD...)               slice
+//	(t T CHILD...)                        struct
+//
+// where GROUP is (POS END POS END ...), one pair per comment. Positions
+// go through off.
+func (s *Snapshot) VerifSexp(in *VerifInterner, off func(token.Pos) int) string {
+	var b strings.Builder
+	verifSexp(&b, s.value, in, off)
+	return b.String()
+}
+
+func verifSexp(b *strings.Builder, v *value, in *VerifInterner, off func(token.Pos) int) {
+	t := in.typ(v.t)
+	switch {
+	case v.isNil:
+		fmt.Fprintf(b, "(n %d)", t)
+	case v.t == goast.PosType:
+		fmt.Fprintf(b, "(p %d)", off(v.value.(token.Pos)))
+	case v.Elem != nil:
+		node := 0
+		if v.IsNode {
+			node = 1
+		}
+		fmt.Fprintf(b, "(r %d %d %d %d (", t, node, off(v.pos), off(v.end))
+		for _, cg := range v.Comments {
+			b.WriteString("(")
+			for i, c := range cg.List {
+				if i > 0 {
+					b.WriteString(" ")
+				}
+				fmt.Fprintf(b, "%d %d", off(c.Pos()), off(c.End()))
+			}
+			b.WriteString(")")
+		}
+		b.WriteString(") ")
+		verifSexp(b, v.Elem, in, off)
+		b.WriteString(")")
+	case v.t.Kind() == reflect.Slice:
+		en := 0
+		if v.t.Elem().Implements(goast.NodeType) {
+			en = 1
+		}
+		fmt.Fprintf(b, "(s %d %d", t, en)
+		for _, c := range v.Children {
+			b.WriteString(" ")
+			verifSexp(b, c, in, off)
+		}
+		b.WriteString(")")
+	case v.t.Kind() == reflect.Struct:
+		fmt.Fprintf(b, "(t %d", t)
+		for _, c := range v.Children {
+			b.WriteString(" ")
+			verifSexp(b, c, in, off)
+		}
+		b.WriteString(")")
+	default:
+		fmt.Fprintf(b, "(a %d %d)", t, in.atom(v.value))
+	}
+}
